@@ -258,7 +258,8 @@ func (index *indexText) processAnalysedDoc(ad analysedDocument) error {
 }
 
 func (index *indexText) parallelAnalyse(ctx context.Context, in <-chan Document) (<-chan analysedDocument, <-chan error) {
-	numWorkers := runtime.NumCPU() - 1
+	// At least one worker, on a single core nobody would read the queue
+	numWorkers := max(1, runtime.NumCPU()-1)
 	outs := make([]<-chan analysedDocument, numWorkers)
 	errCs := make([]<-chan error, numWorkers)
 	for i := 0; i < numWorkers; i++ {
